@@ -1,6 +1,7 @@
 """C11 - shuffle is a seed-determined permutation inside each layer."""
 import os
 import random
+import sys
 
 LEVEL = 'exploration'
 RULE = ('worlds with 0-4 layers (+ optional unit layer) x 0-12 tests per '
@@ -24,6 +25,7 @@ FLOORS = {'order_comparisons': 600, 'nontrivial_layers': 150,
           'par_runs': 30, 'layer_subset_runs': 30, 'resume_runs': 10,
           'list_par_runs': 30, 'list_subset_runs': 10,
           'hostile_rng_runs': 40, 'hostile_rng_yields': 400,
+          'multi_directory_worlds': 30, 'other_hashseed_runs': 60,
           'shuffle_contract_evals': 300}
 BATCH_TIMEOUT = 400
 
@@ -85,6 +87,28 @@ def run_case(case):
     layout = [('%s_p.tests.test_a' % prefix, '%s_p/tests/test_a.py' % prefix),
               ('%s_p.tests.test_b' % prefix, '%s_p/tests/test_b.py' % prefix)]
     spec = gen.simple_world(prefix, layers, tbl, module_layout=layout)
+    multidir = rng.random() < 0.3
+    xpath = []
+    if multidir:
+        # the tests of every layer come from three search directories
+        # (--path given several times): split each class in three
+        mods = []
+        for di, d in enumerate('abc'):
+            nodes = []
+            for m in spec['modules']:
+                for node in m['suite']['ch']:
+                    share = node['tests'][di::3]
+                    if share:
+                        nodes.append(dict(node, name=node['name'] + d,
+                                          tests=share))
+            if nodes:
+                mods.append({
+                    'name': '%s_p%s.tests.test_%s' % (prefix, d, d),
+                    'file': 'dir-%s/%s_p%s/tests/test_%s.py' % (
+                        d, prefix, d, d),
+                    'suite': {'t': 'suite', 'ch': nodes}})
+                xpath.append('dir-%s' % d)
+        spec['modules'] = mods
     model = oracles.LayerModel(spec)
     disc = {}
     for lname, tids in vworld.expected_tests(spec, {}).items():
@@ -100,6 +124,22 @@ def run_case(case):
             viol.append({'rule': rule, 'mech': mech, 'detail': d})
 
     root = vworld.materialise(spec)
+    if xpath:
+        C('multi_directory_worlds')
+        _rw = common.run_world
+
+        class _Common:
+            """common.run_world with the extra --path options added."""
+            def __getattr__(self, k):
+                return getattr(sys.modules['common'], k)
+
+            @staticmethod
+            def run_world(spec, plan=None, opts=None, extra_argv=(), **kw):
+                extra = list(extra_argv)
+                for d in xpath:
+                    extra += ['--path', os.path.join(root, d)]
+                return _rw(spec, plan, opts, extra_argv=extra, **kw)
+        common = _Common()
     seed = case['seed']
     import ztr_monitor
     ev0 = ztr_monitor.COUNTERS.get('eval.shuffle', 0)
@@ -233,13 +273,24 @@ def run_case(case):
             compare(common.run_world(spec, None, dict(sopts, layer=pats),
                                      root=root), 'layer-subset', only=set(sub))
             C('layer_subset_runs')
-        # other interpreter
+        # other interpreter (and another string-hash seed)
         if rng.random() < 0.3:
             py = rng.choice(PYTHONS)
             if os.path.exists(py):
-                compare(common.run_world(spec, None, sopts, mode='cli',
-                                         python=py, root=root), 'python')
+                compare(common.run_world(
+                    spec, None, sopts, mode='cli', python=py, root=root,
+                    env_extra={'PYTHONHASHSEED': str(rng.randrange(1, 999))}),
+                    'python')
                 C('other_python_runs')
+        # same interpreter, other string-hash seeds (separate processes)
+        if rng.random() < (0.6 if xpath else 0.15):
+            for hs in rng.sample(range(1, 500), 2):
+                compare(common.run_world(
+                    spec, None, sopts, mode='cli', root=root,
+                    extra_argv=['--list-tests'] if hs % 2 else [],
+                    env_extra={'PYTHONHASHSEED': str(hs)}),
+                    'list' if hs % 2 else 'hashseed')
+                C('other_hashseed_runs')
     finally:
         vworld.destroy(root)
         C('shuffle_contract_evals',
